@@ -83,6 +83,8 @@ func (n *CocagoParser) Visitor(f *ast.File, fset *token.FileSet, fileName string
 	var currentFile core_domain.CodeContainer
 	var currentFunc *core_domain.CodeFunction
 	var dsMap = make(map[string]*core_domain.CodeDataStruct)
+	// methods whose receiver type has not been visited yet (declared later, or in another file)
+	var pendingMethods = make(map[string][]core_domain.CodeFunction)
 
 	packageName := BuildImportName(fileName)
 	currentFile.FullName = packageName
@@ -125,7 +127,11 @@ func (n *CocagoParser) Visitor(f *ast.File, fset *token.FileSet, fileName string
 			funcType = "FuncDecl"
 			currentFunc, recv := AddFunctionDecl(x, &currentFile)
 			if recv != "" {
-				dsMap[recv].Functions = append(dsMap[recv].Functions, *currentFunc)
+				if dsMap[recv] == nil {
+					pendingMethods[recv] = append(pendingMethods[recv], *currentFunc)
+				} else {
+					dsMap[recv].Functions = append(dsMap[recv].Functions, *currentFunc)
+				}
 			}
 		case *ast.FuncType:
 			if funcType != "FuncDecl" {
@@ -147,6 +153,13 @@ func (n *CocagoParser) Visitor(f *ast.File, fset *token.FileSet, fileName string
 		}
 		return true
 	})
+
+	for recv, methods := range pendingMethods {
+		if dsMap[recv] == nil {
+			dsMap[recv] = &core_domain.CodeDataStruct{NodeName: recv, Package: currentFile.PackageName}
+		}
+		dsMap[recv].Functions = append(dsMap[recv].Functions, methods...)
+	}
 
 	currentFile.DataStructures = nil
 	for _, ds := range dsMap {
